@@ -342,14 +342,21 @@ class Interp:
         if f is True: return
         if self.st.guards: f = Implies(And(*self.st.guards), tz(f))
         self.st.pc.append(tz(f))
-    def ob(self, name, goal, kind='vc', extra=None):
+    def ob(self, name, goal, kind='vc', extra=None, using=None):
+        """using: prove the goal from these facts alone (each must already be a fact of this path: it is looked up in the path condition, otherwise the whole
+        path condition is sent) — a smaller query for steps whose justification is known"""
         base = (name, self.st.taken())
         nth = self.st.occ.get(base, 0); self.st.occ[base] = nth + 1
         key = (name, self.st.taken(), nth)
         if key in self.obls: return
         goal = tz(goal)
         assumptions = list(self.st.pc) + list(self.st.guards)
-        self.obls[key] = Obligation(name, assumptions, goal, self.st.taken(), kind, extra, {g: list(v) for g, v in self.axgroups.items()} if self.axgroups else None)
+        axg = {g: list(v) for g, v in self.axgroups.items()} if self.axgroups else None
+        if using is not None:
+            facts = [tz(u) for u in using]
+            if all(any(f.eq(a) for a in assumptions if z3.is_expr(a)) for f in facts):
+                assumptions, axg = facts, None
+        self.obls[key] = Obligation(name, assumptions, goal, self.st.taken(), kind, extra, axg)
     def choose(self, n, label=''):
         st = self.st
         if st.pos < len(st.prefix):
